@@ -36,7 +36,7 @@ var (
 	readerPath   = []string{"conn:Conn.Read", "conn:Conn.ReadBytes", "conn:Conn.Write", "conn:NewConn", "conn:type Conn"}
 	idlAll       = []string{"idl:New", "idl:isBlank", "idl:parser.advance", "idl:parser.advanceOnLine", "idl:parser.backup", "idl:parser.next", "idl:parser.readAlias", "idl:parser.readError", "idl:parser.readFieldName", "idl:parser.readIDL", "idl:parser.readInterfaceName", "idl:parser.readKeyword", "idl:parser.readMethod", "idl:parser.readStructType", "idl:parser.readType", "idl:parser.readTypeName", "idl:type parser", "idl:type Type", "idl:type TypeField", "idl:type TypeKind", "idl:type Alias", "idl:type Method", "idl:type Error", "idl:type IDL", "idl:const TypeBool,TypeInt,TypeFloat,TypeString,TypeObject,TypeArray,TypeMaybe,TypeMap,TypeStruct,TypeEnum,TypeAlias"}
 	genAll       = []string{"gen:writeType", "gen:writeDocString", "gen:generateTemplate", "gen:resolvesToObject"}
-	lifecycleAll = []string{"service:Service.Bind", "service:Service.Listen", "service:Service.DoListen", "service:Service.Shutdown", "service:Service.teardown", "service:Service.isRunning", "service:Service.setListener", "service:Service.GetListener", "service:Service.refreshTimeout", "service:Service.handleConnection", "service:Service.RegisterInterface", "service:type Service"}
+	lifecycleAll = []string{"service:Service.Bind", "service:Service.bind", "service:Service.Listen", "service:Service.DoListen", "service:Service.Shutdown", "service:Service.teardown", "service:Service.isRunning", "service:Service.setListener", "service:Service.GetListener", "service:Service.refreshTimeout", "service:Service.handleConnection", "service:Service.RegisterInterface", "service:type Service"}
 )
 
 func cat(ls ...[]string) []string {
@@ -77,7 +77,7 @@ var modelledBy = map[string][]string{
 	"C17": cat(readerPath, []string{"conn:var aLongTimeAgo", "bridge:PipeCon.SetReadDeadline", "bridge:PipeCon.SetWriteDeadline", "service:Service.handleConnection",
 		"connection:Connection.Send", "connection:Connection.Call", "connection:Connection.Upgrade", "conn:Conn.Close", "conn:Conn.NetConn", "conn:type ioret", "conn:type rret", "bridge:PipeCon.Close", "bridge:type PipeCon", "newbridge:NewBridgeWithStderr"}),
 	"C18": cat(readerPath, []string{"connection:Connection.Upgrade", "call:type Call", "connection:type ReadWriterContext", "connection:type GetNetConn", "conn:Conn.NetConn", "connection:type Connection"}),
-	"C19": {"service:Service.parseAddress", "service:Service.Bind", "service:Service.setListener", "service:Service.teardown",
+	"C19": {"service:Service.parseAddress", "service:Service.Bind", "service:Service.bind", "service:Service.setListener", "service:Service.teardown",
 		"connection:NewConnection", "listen_1.11:listen"},
 	"C20": {"socketactivation:activationListener", "service:Service.setListener"},
 }
